@@ -2,6 +2,7 @@ package main
 
 import (
 	"strings"
+	"unicode/utf8"
 )
 
 // sTok is a token of the emitted SQL: kind and decoded value (see spec/Sql.tla).
@@ -190,12 +191,13 @@ func lexSQL(text string, dialect string) []sTok {
 				i += 2
 				continue
 			}
-			if strings.IndexByte("()[],.;*/%+-=<>", c) >= 0 {
+			if strings.IndexByte("()[],.;*/%+-=<>|!~", c) >= 0 {
 				emit("op", string(c), i, i+1)
 				i++
 			} else {
-				emit("bad", string(c), i, i+1)
-				i++
+				_, w := utf8.DecodeRuneInString(text[i:])
+				emit("bad", text[i:i+w], i, i+w)
+				i += w
 			}
 		}
 	}
